@@ -815,6 +815,8 @@ type Case struct {
 	// group: the rules of every group, and what Load answers to each rule when it stands alone
 	Groups []GroupDesc `json:"groups,omitempty"`
 	Alone  [][]Obs     `json:"alone,omitempty"`
+	// group: whether a rule loads depends on something its description does not say (no verdict of the Coq model)
+	NoModel bool `json:"no_model,omitempty"`
 }
 
 // Begin announces a case before it is loaded: if the process dies, the supervisor knows which input did it.
@@ -1085,7 +1087,7 @@ func main() {
 			if !begin("group", src) {
 				continue
 			}
-			c := Case{Stream: "group", ID: id, Src: src, What: f.what, Groups: f.groups}
+			c := Case{Stream: "group", ID: id, Src: src, What: f.what, Groups: f.groups, NoModel: f.noModel}
 			var e *ruleguard.Engine
 			e, c.Obs = loadObs(t.Fset, []byte(src))
 			for _, g := range f.groups {
@@ -1114,7 +1116,7 @@ func main() {
 			}
 			obs := runHistory(func() *ruleguard.LoadContext { return &ruleguard.LoadContext{Fset: t.Fset} }, srcs, 5*time.Second)
 			last := len(obs) - 1
-			h := Case{Stream: "group", ID: id, Src: src, What: f.what + " (every group a Load of its own on one engine; the answer to the last one)", Obs: obs[last]}
+			h := Case{Stream: "group", ID: id, Src: src, What: f.what + " (every group a Load of its own on one engine; the answer to the last one)", Obs: obs[last], NoModel: f.noModel}
 			if last == len(f.groups)-1 {
 				h.Groups, h.Alone = f.groups[last:], c.Alone[last:]
 			}
